@@ -44,7 +44,6 @@ def _(v):
         ratios = [total[k] / comp[n][k] for k in elems]
         v.prove("bound_%s.is_a_ratio" % n, SP.disj([v.eq(b[i], r) for r in ratios]))
         v.prove("bound_%s.is_least" % n, SP.conj([b[i] <= r + (0 if v.symbolic else 1e-12) for r in ratios]))
-        v.prove("bound_%s.charge_not_used" % n, True)
     if v.symbolic:
         # no non-negative state with the same element totals exceeds the bound
         alt = {n: v.real("alt_" + n, lo=0) for n in NAMES}
